@@ -13,6 +13,7 @@ volatile long vf_alloc_calls, vf_fail_at, vf_fail_from, vf_fail_hits;
 volatile long vf_alloc_budget, vf_bytes_budget;
 volatile int vf_budget_tripped;
 volatile long vf_foreign_frees;
+void vf_budget_abort(int which);
 /* scheduling hook (schedule injector of C13): called at every library allocator call */
 void (*volatile vf_sched_point)(int point, void *mutex);
 #define VF_PT_ALLOC_ 5
@@ -90,14 +91,16 @@ bool vf_ledger_has(const void *p) { L(); bool r = lfind(p) != NULL; U(); return 
 size_t vf_ledger_size(const void *p) { L(); lent_t *e = lfind(p); size_t r = e ? e->size : 0; U(); return r; }
 
 /* ---- failpoints ---------------------------------------------------------- */
+/* a harness may define vf_budget_abort() to turn a tripped per-call budget into a recorded non-termination event */
+__attribute__((weak)) void vf_budget_abort(int which) { (void)which; }
 static bool should_fail(size_t want) {
     long n = __atomic_add_fetch(&vf_alloc_calls, 1, __ATOMIC_RELAXED);
     if ((vf_fail_at && n == vf_fail_at) || (vf_fail_from && n >= vf_fail_from)) {
         vf_fail_hits++;
         return true;
     }
-    if (vf_alloc_budget > 0 && n > vf_alloc_budget) { vf_budget_tripped = 1; return true; }
-    if (vf_bytes_budget > 0 && lbytes + (long)want > vf_bytes_budget) { vf_budget_tripped = 2; return true; }
+    if (vf_alloc_budget > 0 && n > vf_alloc_budget) { vf_budget_tripped = 1; vf_budget_abort(1); return true; }
+    if (vf_bytes_budget > 0 && lbytes + (long)want > vf_bytes_budget) { vf_budget_tripped = 2; vf_budget_abort(2); return true; }
     return false;
 }
 
